@@ -48,7 +48,7 @@ def mutate(rng, s):
         return "X"
     r = rng.random()
     i = rng.randrange(len(s))
-    alphabet = "ABCDEFGHIJKLMNOPQRSTUVWXYZ0123456789._-abcµ "
+    alphabet = "ABCDEFGHIJKLMNOPQRSTUVWXYZ0123456789._-abcµ \uff12\u0663\u096b\u0412"  # incl. non-ASCII decimal digits / look-alikes
     if r < 0.4:
         return s[:i] + rng.choice(alphabet) + s[i + 1:]
     if r < 0.6:
